@@ -2,7 +2,8 @@
 
 Universe (exhaustive, nothing sampled): the four closed curves (UnitSquare, PiSquare, LShape with the driver's
 pre-refinement, Circle) x every leaf-set-distinct state of the bisection BFS graph (quick: depth 1, thorough: depth
-2) plus the once uniformly refined initial meshes (up to 128 elements after quartering) x problems x densities.
+2, and depth 3 on UnitSquare and Circle for the value clauses) plus the once uniformly refined initial meshes (up to
+128 elements after quartering) x problems x densities.
 
 Problems: Dirichlet (g = 1) and MildSingular (g = t^2) on every mesh; with initial data (InitialOperator.linform costs
 8-55 ms per element, hence small meshes only): Singular on UnitSquare and LShape(driver), Smooth on UnitSquare and
@@ -18,7 +19,8 @@ q(e_i + e_j) gives Q_ij + Q_ji.  So agreement (to tolerance) with the reference 
 {0, e_i, e_i + e_j (i <= j)} pins the whole function if the code computes any quadratic polynomial at all; the
 Galerkin density of the coarse system is added because it is the density the driver really passes (strong
 cancellation).  All pairs i <= j are used (on meshes with more than PAIR_ALL_MAX elements in the quick tier: the
-covering set {(i,i), (i,i+1), (i,i+N/2)}).
+covering set {(i,i), (i,i+1), (i,i+N/2)}).  One Gaussian density per mesh and problem, seeded from VERIF_SEED and the
+mesh, is added as a supplement; it is reported separately and not counted in distinct_nontrivial.
 
 Reference (mc/estim_ref.py; independent of the estimator modules): the history is replayed on a SECOND real mesh,
 every leaf is bisected in time and both halves in space by the real refine_axis (ascending level order; verified
@@ -50,9 +52,8 @@ For the exhaustive value clauses the `mp` attribute of src.single_layer / src.in
 serial in-process stand-in, and SL.bilform / M0.linform of the operator objects handed to the estimators are memoised
 by the values they read (rectangles + piece); the first estimator call on each mesh runs with an empty memo and is
 compared bitwise with a second, memoised call (determinism self-check of the memo)."""
-import itertools
-import sys
 import types
+import zlib
 
 import numpy as np
 
@@ -253,6 +254,8 @@ def density_vector(tag, N, gal):
         v = np.array(gal, dtype=float)
     elif tag[0] == 'ones':
         v[:] = 1.0
+    elif tag[0] == 'random':
+        v = np.random.default_rng(int(tag[1])).standard_normal(N)
     return v
 
 
@@ -292,12 +295,12 @@ class _NotAQuarter(Exception):
 
 
 def mesh_task(item):
-    """item = (cfgname, history, uniform, problems, all_pairs, only_density or None)."""
-    cfgname, hist, uniform, problem_list, all_pairs, only = item
+    """item = (cfgname, history, uniform, problems, all_pairs, only_density or None, VERIF_SEED)."""
+    cfgname, hist, uniform, problem_list, all_pairs, only, seed = item
     set_mp('serial')
     out = {'N': 0, 'cmp_hh2': 0, 'cmp_hier': 0, 'vanish': 0, 'pool': 0, 'nonneg': 0, 'quarters': 0, 'memo_checks': 0,
            'nontrivial': 0, 'rel_hh2': 0.0, 'rel_hier': 0.0, 'rel_vanish': 0.0, 'ref_single_calls': 0, 'viols': [],
-           'min_returned': float('inf'), 'densities': 0, 'detail': []}
+           'min_returned': float('inf'), 'densities': 0, 'detail': [], 'random': 0}
     nv = {}
 
     def viol(clause, problem, what, extra):
@@ -383,12 +386,15 @@ def mesh_task(item):
         tags = density_tags(N, all_pairs or N <= PAIR_ALL_MAX)
         # the Galerkin density goes first: its first call fills the memo, its second call is answered from it
         tags = [tags[-1]] + tags[:-1]
+        # supplement (not part of the exhaustive claim): one seeded Gaussian density per mesh and problem
+        tags.append(('random', zlib.crc32(repr((cfgname, _hist_json(hist), uniform, problem)).encode()) ^ (int(seed) & 0xffffffff)))
         if only is not None:
             tags = [] if only[0] == 'vanish' else [tuple(only)]
         first = True
         for tag in tags:
             Phi = density_vector(tag, N, gal)
             out['densities'] += 1
+            out['random'] += tag[0] == 'random'
             dj = {'density': list(tag)}
             # ---------- h-h/2
             val, err = call('hh2', Phi)
@@ -414,7 +420,7 @@ def mesh_task(item):
                     if rel > TOL_VALUE:
                         viol('hh2-value', problem, 'density {}: code {:.15e}, definition {:.15e}, |diff|/scale = {:.3e} '
                              '(scale = energy norms {:.6e})'.format(tag, float(val), r_est, rel, r_scale), dj)
-                    if r_est > 1e-6 * r_scale:
+                    if r_est > 1e-6 * r_scale and tag[0] != 'random':
                         out['nontrivial'] += 1
             # ---------- hierarchical
             val, err = call('hier', Phi)
@@ -444,7 +450,7 @@ def mesh_task(item):
                         viol('hier-value', problem, 'density {}: element {} {} indicator: code {:.15e}, definition {:.15e}; '
                              'max |diff|/S = {:.3e} (S = {:.6e}, largest reference indicator {:.6e})'.format(
                                  tag, _fr(rect_of(elems[i])), ('time', 'space')[c], val[i, c], r_ind[i, c], rel, r_mag, r_ind.max()), dj)
-                    if r_ind.max() > 1e-6 * r_mag:
+                    if r_ind.max() > 1e-6 * r_mag and tag[0] != 'random':
                         out['nontrivial'] += 1
             # ---------- pool path of HH2 (stand-in pool), on the first density only: the path does not depend on Phi
             if first:
@@ -558,7 +564,7 @@ def prol_task(item):
                 bad = 'raised {!r}'.format(ex)
             if bad and len(out['viols']) < MAXV:
                 out['viols'].append(({'clause': 'prolongate', 'cfg': cfgname},
-                                     'Prolongate on {} history={} target={} order={}: {}'.format(cfgname, _hist_json(hist), tgt, order, bad),
+                                     'Prolongate on {} history={} target={} order={}: {}'.format(cfgname, _hist_json(hist), (tgt[0], _hist_json(tgt[1])) if tgt[0] == 'ops' else tgt, order, bad),
                                      {'kind': 'prolongate', 'cfg': cfgname, 'history': _hist_json(hist), 'two_step': two_step}))
     return out
 
@@ -607,7 +613,16 @@ def pool_task(item):
     cfgname, hist, problem, cpus = item
     out = {'schedules': 0, 'pools': 0, 'pool_calls': 0, 'uncontrolled': 0, 'viols': [], 'N': 0}
     set_mp('serial')
-    a0, b0, N = _estimates(cfgname, hist, problem, use_pool=False)
+    try:
+        a0, b0, N = _estimates(cfgname, hist, problem, use_pool=False)
+    except HarnessError:
+        raise
+    except Exception as ex:  # the estimators fail on the serial path already: nothing to compare the pool path with
+        out['viols'].append(({'clause': 'raised', 'cfg': cfgname, 'problem': problem},
+                             'serial-path estimators raised {!r} on {} history={} problem={} (Galerkin density)'.format(
+                                 ex, cfgname, _hist_json(hist), problem),
+                             {'kind': 'pool', 'cfg': cfgname, 'history': _hist_json(hist), 'problem': problem, 'cpus': list(cpus)}))
+        return out
     out['N'] = N
     # number of chunks of the hierarchical estimator's matrix call (trial = coarse): chunksize N // (16 cpu) + 1 = 1
     for cpu in cpus:
@@ -650,12 +665,21 @@ def genuine_pool_case(cfgname, hist, problem):
     set_mp('serial')
     a0, b0, N = _estimates(cfgname, hist, problem, use_pool=False)
     set_mp('genuine')
+    made = [0]
+    orig_pool = _GENUINE_MP.Pool
+
+    def counting_pool(*a, **k):
+        made[0] += 1
+        return orig_pool(*a, **k)
+
+    _GENUINE_MP.Pool = counting_pool
     try:
         a, b, _ = _estimates(cfgname, hist, problem, use_pool=True)
     finally:
+        _GENUINE_MP.Pool = orig_pool
         set_mp('serial')
     ok = _bits(a) == _bits(a0) and _bits(b) == _bits(b0)
-    return ok, N, (a, a0)
+    return ok, N, (a, a0), made[0]
 
 
 # =====================================================================================================
@@ -671,10 +695,10 @@ def _plan(ctx):
         states[c] = hs
         per[c] = {'depth': depth, 'leaf_set_distinct_states': len(hs)}
         for h in hs:
-            mesh_items.append((c, h, 0, ['Dirichlet', 'MildSingular'], True, None))
+            mesh_items.append((c, h, 0, ['Dirichlet', 'MildSingular'], True, None, ctx.seed))
             prol_items.append((c, h, not quick))
         # the once uniformly refined initial mesh (16 / 16 / 32 / 16 elements -> 64..128 after quartering)
-        mesh_items.append((c, (), 1, ['Dirichlet', 'MildSingular'], not quick, None))
+        mesh_items.append((c, (), 1, ['Dirichlet', 'MildSingular'], not quick, None, ctx.seed))
     # thorough: one more BFS level on two curves (value clauses only)
     if not quick:
         for c, d in EXTRA_DEPTH.items():
@@ -682,7 +706,7 @@ def _plan(ctx):
             per[c]['extra_depth'] = d
             per[c]['extra_states'] = len(hs)
             for h in hs:
-                mesh_items.append((c, h, 0, ['Dirichlet', 'MildSingular'], True, None))
+                mesh_items.append((c, h, 0, ['Dirichlet', 'MildSingular'], True, None, ctx.seed))
     # initial data: the initial mesh of each combination (quick), plus every depth-1 state (thorough)
     init_items = []
     for c, p in INITIAL_COMBOS:
@@ -690,7 +714,7 @@ def _plan(ctx):
         if quick and p in ('Singular', ) and c == 'UnitSquare':
             hs1 = [h for h in states[c] if len(h) <= 1][:3]  # the initial mesh and its first two successors
         for h in hs1:
-            init_items.append((c, h, 0, [p], True, None))
+            init_items.append((c, h, 0, [p], True, None, ctx.seed))
     # pool schedules
     pool_items = []
     if vpool is not None:
@@ -716,12 +740,13 @@ def run(ctx):
     items.sort(key=lambda it: -(len(it[1]) + 100 * it[2] + (50 if PROBLEMS[it[3][0]][1] else 0)))
     res = pmap(mesh_task, items, ctx.jobs, chunksize=1)
     agg = {k: 0 for k in ('cmp_hh2', 'cmp_hier', 'vanish', 'pool', 'nonneg', 'quarters', 'memo_checks', 'nontrivial',
-                          'ref_single_calls', 'densities')}
+                          'ref_single_calls', 'densities', 'random')}
     worst = {'rel_hh2': 0.0, 'rel_hier': 0.0, 'rel_vanish': 0.0}
     per_problem = {}
     maxN = 0
     min_ret = float('inf')
     samples = []
+    sample_keys = set()
     for it, r in zip(items, res):
         for k in agg:
             agg[k] += r[k]
@@ -735,7 +760,8 @@ def run(ctx):
             d['largest_N'] = max(d['largest_N'], r['N'])
         for key, what, rp in r['viols']:
             ctx.violation(key, what, rp)
-        if len(samples) < 4 and r['detail']:
+        if r['detail'] and (it[0], it[3][0], min(len(it[1]), 1)) not in sample_keys and len(samples) < 8:
+            sample_keys.add((it[0], it[3][0], min(len(it[1]), 1)))
             samples.append({'cfg': it[0], 'history': _hist_json(it[1]), 'uniform': it[2], 'N': r['N'], 'case': r['detail'][0]})
     ctx.note('values: {} meshes x problems; {} h-h/2 and {} hierarchical comparisons; worst |diff|/scale h-h/2 {:.2e}, '
              'hierarchical {:.2e}; vanish clause {} cases, worst {:.2e}'.format(
@@ -762,16 +788,18 @@ def run(ctx):
                 sched[k] += r[k]
             for key, what, rp in r['viols']:
                 ctx.violation(key, what, rp)
-        if sched['pools'] == 0:
+        if sched['pools'] == 0 and ctx.n_viol == 0 and ctx.n_known == 0:
             raise HarnessError('virtual pool clause created no pool')
     # genuine pool, one configuration per problem kind
     genuine = []
     for c, h, p in (('UnitSquare', states['UnitSquare'][1], 'Dirichlet'), ('UnitSquare', states['UnitSquare'][1], 'Singular')):
         try:
-            ok, N, vals = genuine_pool_case(c, h, p)
+            ok, N, vals, made = genuine_pool_case(c, h, p)
+        except HarnessError:
+            raise
         except Exception as ex:
-            ok, N, vals = False, 0, repr(ex)
-        genuine.append({'cfg': c, 'history': _hist_json(h), 'problem': p, 'N': N, 'bits_equal': ok})
+            ok, N, vals, made = False, 0, 'raised {!r}'.format(ex), 0
+        genuine.append({'cfg': c, 'history': _hist_json(h), 'problem': p, 'N': N, 'bits_equal': ok, 'pools_created': made})
         if not ok:
             ctx.violation({'clause': 'pool-bits', 'cfg': c, 'problem': p},
                           'genuine fork pool on {} history={} problem={}: estimators differ from the serial path: {}'.format(c, _hist_json(h), p, vals),
@@ -779,7 +807,8 @@ def run(ctx):
     ctx.note('pool: {} stand-in comparisons, {} virtual-pool schedules ({} pools, {} pool calls, {} uncontrolled), genuine pool cases {}'.format(
         agg['pool'], sched['schedules'], sched['pools'], sched['pool_calls'], sched['uncontrolled'], len(genuine)))
 
-    if agg['cmp_hh2'] < 50 or agg['cmp_hier'] < 50 or agg['vanish'] < 5 or n_nonid < 5 or agg['nontrivial'] < 50:
+    if ctx.n_viol == 0 and ctx.n_known == 0 and (agg['cmp_hh2'] < 50 or agg['cmp_hier'] < 50 or agg['vanish'] < 5 or n_nonid < 5
+                                                 or agg['nontrivial'] < 50 or any(not g.get('pools_created') for g in genuine)):
         raise HarnessError('vacuous C20 run')
     evaluations = agg['cmp_hh2'] + agg['cmp_hier'] + agg['vanish'] + agg['pool'] + agg['quarters'] + n_pcalls + sched['schedules'] + len(genuine)
     cov = {
@@ -795,6 +824,7 @@ def run(ctx):
         'largest_coarse_mesh': maxN,
         'largest_fine_mesh': 4 * maxN,
         'densities': agg['densities'],
+        'of_which_supplementary_seeded_random_densities': agg['random'],
         'hh2_comparisons': agg['cmp_hh2'],
         'hier_comparisons': agg['cmp_hier'],
         'nonneg_checks': agg['nonneg'],
@@ -813,7 +843,9 @@ def run(ctx):
         'pool_standin_comparisons': agg['pool'],
         'virtual_pool': sched,
         'genuine_pool_cases': genuine,
-        'samples': samples,
+        'samples': samples + [{'kind': 'prolongate', 'cfg': prol_items[-1][0], 'history': _hist_json(prol_items[-1][1]),
+                               'fine': 'every successor, uniform x1, x2, refine-all'}]
+        + [{'kind': 'pool-schedules', 'cfg': it[0], 'history': _hist_json(it[1]), 'problem': it[2], 'cpu': it[3]} for it in pool_items[-2:]],
     }
     assumptions = [
         'meshes bounded by BFS depth {} on the four closed curves plus the once uniformly refined initial meshes; problems with '
@@ -838,7 +870,7 @@ def replay(ctx, data):
     if kind == 'mesh':
         only = data.get('density')
         r = mesh_task((data['cfg'], hist, int(data.get('uniform', 0)), [data['problem']] if data['problem'] in PROBLEMS else ['Dirichlet'],
-                       True, only))
+                       True, only, ctx.seed))
         for d in r['detail']:
             print('reference:', d)
         print('worst |diff|/scale: h-h/2 {:.3e}, hierarchical {:.3e}, vanish {:.3e}'.format(r['rel_hh2'], r['rel_hier'], r['rel_vanish']))
@@ -847,7 +879,7 @@ def replay(ctx, data):
     elif kind == 'pool':
         r = pool_task((data['cfg'], hist, data['problem'], data.get('cpus', [1, 2, 3, 16])))
     elif kind == 'genuine':
-        ok, N, vals = genuine_pool_case(data['cfg'], hist, data['problem'])
+        ok, N, vals, made = genuine_pool_case(data['cfg'], hist, data['problem'])
         print('genuine pool vs serial:', vals)
         return ok
     else:
